@@ -38,13 +38,14 @@ def run_check(prop: str, tier: str, seed: int, workers: int, segments: int | Non
     violations: list[dict] = []
     harness: list[str] = []
 
-    # 1. stored replays of known / fixed findings
-    for e in findings:
-        rp = e.get("replay")
-        if not rp:
-            continue
-        path = os.path.join(VERIF, rp)
-        res = engine.run_replay_child(path)
+    # 1. stored replays of known / fixed findings (fresh interpreters, in parallel)
+    from concurrent.futures import ThreadPoolExecutor
+
+    with_replay = [e for e in findings if e.get("replay")]
+    with ThreadPoolExecutor(max(1, min(workers, len(with_replay) or 1))) as ex:
+        stored = list(ex.map(lambda e: engine.run_replay_child(os.path.join(VERIF, e["replay"]), no_known=True), with_replay))
+    for e, res in zip(with_replay, stored):
+        path = os.path.join(VERIF, e["replay"])
         with open(path) as f:
             exp = json.load(f)["expected"]
         if e["status"] == "known":
@@ -118,12 +119,12 @@ def run_check(prop: str, tier: str, seed: int, workers: int, segments: int | Non
     os.makedirs(os.path.join(VERIF, "replays"), exist_ok=True)
     min_budget = tcfg.get("min_budget", 90)
     for r in viol:
-        sk = core.canon(r["fail"]["sig"])
+        sk = core.canon(drv.dedupe_key(r["fail"]["sig"]) if hasattr(drv, "dedupe_key") else r["fail"]["sig"])
         if sk in seen_sigs:
             continue
-        seen_sigs.add(sk)
-        if len(seen_sigs) > 4:
+        if len(seen_sigs) >= getattr(drv, "MAX_REPORTS", 4):
             break
+        seen_sigs.add(sk)
         rp = {"property": prop, "seed": seed, "tier": tier, "segment": r["k"], "prelude": r.get("prelude", []),
               "cfg": r["cfg"], "ops": r["ops"], "expected": r["fail"]}
         path = os.path.join(VERIF, "replays", f"{prop}-{seed}-{r['k']}.json")
